@@ -1109,3 +1109,484 @@ func runR131(c *Ctx) {
 		}
 	}
 }
+
+// ---- R133: a clause is taken apart only together with its error ----
+
+func init() {
+	register(&Rule{ID: "R133", Name: "CLAUSE-ERR-TRAVELS", Floor: 2,
+		Text: "a composite filter clause (a struct of the root package with a list of sub-clauses and an error recorded at construction: AndClause, OrClause) is consulted for its sub-clauses only by code that also consults its error: in every function outside the clause's own methods that reads the sub-clause list of a clause value, the error field of the same value is read as well. The error is how `And()` / `Or()` without sub-clauses is reported; flattening and(a, and()) into and(a) by splicing the nested list drops it, the filter then succeeds - or, with nothing left, dereferences nil",
+		Run:  runR133})
+}
+
+func runR133(c *Ctx) {
+	p := c.P
+	pk := p.PkgByID[rel("")]
+	if pk == nil {
+		c.undecided("qframe|package", "-", "root package not found")
+		return
+	}
+	// clause struct types: a field that is a slice of an interface type and a field of type error
+	type clauseT struct {
+		named        *types.Named
+		subIdx, eIdx int
+	}
+	var clauses []clauseT
+	sc := pk.Types.Scope()
+	for _, name := range sc.Names() {
+		tn, ok := sc.Lookup(name).(*types.TypeName)
+		if !ok {
+			continue
+		}
+		n, ok := tn.Type().(*types.Named)
+		if !ok {
+			continue
+		}
+		st, ok := n.Underlying().(*types.Struct)
+		if !ok {
+			continue
+		}
+		sub, e := -1, -1
+		for i := 0; i < st.NumFields(); i++ {
+			if sl, ok := st.Field(i).Type().Underlying().(*types.Slice); ok {
+				if _, isI := sl.Elem().Underlying().(*types.Interface); isI {
+					if nn, ok := sl.Elem().(*types.Named); ok && nn.Obj().Pkg() == pk.Types {
+						sub = i
+					}
+				}
+			}
+			if isErrorType(st.Field(i).Type()) {
+				e = i
+			}
+		}
+		if sub >= 0 && e >= 0 {
+			clauses = append(clauses, clauseT{n, sub, e})
+		}
+	}
+	if len(clauses) == 0 {
+		c.undecided("qframe|clause types", "-", "no struct with a sub-clause list and an error field found")
+		return
+	}
+	for _, ct := range clauses {
+		key := "qframe." + ct.named.Obj().Name() + "|taken apart with its error"
+		bad := ""
+		for _, fn := range p.FuncsIn("") {
+			if r := fn.Signature.Recv(); r != nil {
+				if n, ok := deref(r.Type()).(*types.Named); ok && n.Obj() == ct.named.Obj() {
+					continue // the clause's own methods
+				}
+			}
+			// values of the clause type whose sub-clause list / error is read in fn
+			readsSub := map[string]string{}
+			readsErr := map[string]bool{}
+			eachInstr(fn, func(in ssa.Instruction) {
+				var x ssa.Value
+				idx := -1
+				switch t := in.(type) {
+				case *ssa.Field:
+					x, idx = t.X, t.Field
+				case *ssa.FieldAddr:
+					// only reads: the address is loaded, not stored to
+					isRead := false
+					for _, r := range *t.Referrers() {
+						if u, ok := r.(*ssa.UnOp); ok && u.Op == token.MUL {
+							isRead = true
+						}
+					}
+					if isRead {
+						x, idx = t.X, t.Field
+					}
+				}
+				if x == nil {
+					return
+				}
+				n, ok := deref(x.Type()).(*types.Named)
+				if !ok || n.Obj() != ct.named.Obj() {
+					return
+				}
+				if idx == ct.subIdx {
+					readsSub[accessPath(x)] = p.instrPos(in)
+				}
+				if idx == ct.eIdx {
+					readsErr[accessPath(x)] = true
+				}
+			})
+			for path, pos := range readsSub {
+				if !readsErr[path] {
+					bad = fmt.Sprintf("%s reads the sub-clauses of a %s at %s without looking at its error", fname(fn), ct.named.Obj().Name(), pos)
+				}
+			}
+		}
+		if bad != "" {
+			c.bad(key, "-", bad+": the error recorded when the clause was built (no sub-clauses given) is lost, and the clause it is merged into reports success")
+		} else {
+			c.ok(key, "-", "only the clause's own methods read its sub-clauses (or whoever reads them reads its error too)")
+		}
+	}
+}
+
+// ---- R134: where the codes of an enum column come from ----
+
+func init() {
+	register(&Rule{ID: "R134", Name: "ENUM-CODE-SOURCE", Floor: 4,
+		Text: "every code appended to (or stored into) the data of an enum column in internal/ecolumn is one of: the code found for the cell's own string by a lookup in the value map (value result of a comma-ok map lookup or of a call that returns a code), a newly minted code, the null constant, a parameter, a code read from another column's data, or an entry of a translation slice indexed by such a code. A code remembered in a field of the factory from an earlier cell (a last-value cache) is none of these: in its zero state it answers `code 0` for the empty string, so an undeclared empty value is accepted as the first declared value",
+		Run:  runR134})
+}
+
+func runR134(c *Ctx) {
+	p := c.P
+	ev := p.Named("internal/ecolumn", "enumVal")
+	if ev == nil {
+		c.undecided("internal/ecolumn.enumVal", "-", "type not found")
+		return
+	}
+	isCode := func(t types.Type) bool {
+		n, ok := t.(*types.Named)
+		return ok && n.Obj() == ev.Obj()
+	}
+	isCodeSlice := func(t types.Type) bool {
+		sl, ok := t.Underlying().(*types.Slice)
+		return ok && isCode(sl.Elem())
+	}
+	n := 0
+	for _, fn := range p.FuncsIn("internal/ecolumn") {
+		var check func(v ssa.Value, d int) string
+		check = func(v ssa.Value, d int) string {
+			if d > 6 {
+				return ""
+			}
+			switch t := v.(type) {
+			case *ssa.Const, *ssa.Parameter:
+				return ""
+			case *ssa.Convert:
+				return "" // a rank computed from an index / length: R33 bounds it
+			case *ssa.ChangeType:
+				return check(t.X, d+1)
+			case *ssa.Phi:
+				for _, e := range t.Edges {
+					if w := check(e, d+1); w != "" {
+						return w
+					}
+				}
+				return ""
+			case *ssa.Extract:
+				if _, ok := t.Tuple.(*ssa.Lookup); ok {
+					return ""
+				}
+				if _, ok := t.Tuple.(*ssa.Call); ok {
+					return ""
+				}
+				if _, ok := t.Tuple.(*ssa.Next); ok {
+					return ""
+				}
+			case *ssa.Lookup:
+				return ""
+			case *ssa.Call:
+				return ""
+			case *ssa.UnOp:
+				if t.Op == token.MUL {
+					switch a := t.X.(type) {
+					case *ssa.IndexAddr:
+						return "" // an element of a slice of codes (another column's data, a translation table)
+					case *ssa.FieldAddr:
+						st, _ := deref(a.X.Type()).Underlying().(*types.Struct)
+						if st != nil {
+							return "the field " + st.Field(a.Field).Name() + " of " + types.TypeString(deref(a.X.Type()), shortQual)
+						}
+					case *ssa.Alloc:
+						for _, r := range *a.Referrers() {
+							if st, ok := r.(*ssa.Store); ok && st.Addr == ssa.Value(a) {
+								if w := check(st.Val, d+1); w != "" {
+									return w
+								}
+							}
+						}
+						return ""
+					}
+				}
+			case *ssa.Field:
+				if st, ok := t.X.Type().Underlying().(*types.Struct); ok {
+					return "the field " + st.Field(t.Field).Name()
+				}
+			case *ssa.BinOp:
+				return ""
+			}
+			return ""
+		}
+		eachInstr(fn, func(in ssa.Instruction) {
+			var vals []ssa.Value
+			switch t := in.(type) {
+			case *ssa.Call:
+				if builtinName(t) == "append" && len(t.Call.Args) == 2 && isCodeSlice(t.Type()) {
+					vals = variadicElems(t.Call.Args[1])
+				}
+			case *ssa.Store:
+				if ia, ok := t.Addr.(*ssa.IndexAddr); ok && isCodeSlice(ia.X.Type()) {
+					vals = []ssa.Value{t.Val}
+				}
+			}
+			for _, v := range vals {
+				n++
+				key := fname(fn) + "|code source"
+				if w := check(v, 0); w != "" {
+					c.bad(key, p.instrPos(in), "a code is entered into an enum column's data from "+w+", a value remembered outside the value map: it is not the code of this cell's string (a last-value cache answers code 0 for the empty string before anything was looked up)")
+				} else {
+					c.okTrivial(key, p.instrPos(in), "looked up, minted, null, a parameter or a code of existing data")
+				}
+			}
+		})
+	}
+	if n == 0 {
+		c.undecided("internal/ecolumn|code stores", "-", "no code entered into column data found")
+	}
+}
+
+// ---- R132: when an operation may hand back its receiver unchanged ----
+
+func init() {
+	register(&Rule{ID: "R132", Name: "IDENTITY-RETURN", Floor: 10,
+		Text: "an exported QFrame method hands back its receiver unchanged only on the strength of the request and of what the frame *is*: the tests that guard such a return read the receiver's error, its row index, its columns and name map, and the arguments - nothing else. A return of the receiver that is guarded by any other state carried in the frame (an order the rows are `known` to be sorted by, a cached flag) makes the result depend on the frame's history: the state is copied by the helpers that derive frames (withIndex) and survives operations that invalidate it, so Sort after a column was overwritten returns the rows unsorted",
+		Run:  runR132})
+}
+
+func runR132(c *Ctx) {
+	p := c.P
+	qfT := p.Named("", "QFrame")
+	if qfT == nil {
+		c.undecided("qframe.QFrame", "-", "type not found")
+		return
+	}
+	st, _ := qfT.Underlying().(*types.Struct)
+	if st == nil {
+		c.undecided("qframe.QFrame", "-", "not a struct")
+		return
+	}
+	// the fields that describe what the frame is
+	content := map[string]bool{}
+	for i := 0; i < st.NumFields(); i++ {
+		f := st.Field(i)
+		switch {
+		case isErrorType(f.Type()), isIntIndexType(f.Type()), isNamedColumnContainer(p, f.Type()):
+			content[f.Name()] = true
+		}
+	}
+	for _, fn := range p.FuncsIn("") {
+		obj, ok := fn.Object().(*types.Func)
+		if !ok || !obj.Exported() || fn.Signature.Recv() == nil || fn.Parent() != nil {
+			continue
+		}
+		if n, ok := deref(fn.Signature.Recv().Type()).(*types.Named); !ok || n.Obj() != qfT.Obj() {
+			continue
+		}
+		if fn.Signature.Results().Len() != 1 || !isFrameType(fn.Signature.Results().At(0).Type()) {
+			continue
+		}
+		recv := fn.Params[0]
+		isRecv := func(v ssa.Value) bool {
+			if v == ssa.Value(recv) {
+				return true
+			}
+			if ld, ok := v.(*ssa.UnOp); ok && ld.Op == token.MUL {
+				if al, ok := ld.X.(*ssa.Alloc); ok {
+					n, all := 0, true
+					for _, r := range *al.Referrers() {
+						if s, ok := r.(*ssa.Store); ok && s.Addr == ssa.Value(al) {
+							n++
+							if s.Val != ssa.Value(recv) {
+								all = false
+							}
+						}
+						if _, ok := r.(*ssa.FieldAddr); ok {
+							// a field of the copy is assigned somewhere: not the unchanged receiver
+							for _, r2 := range *r.(*ssa.FieldAddr).Referrers() {
+								if _, isSt := r2.(*ssa.Store); isSt {
+									all = false
+								}
+							}
+						}
+					}
+					return n > 0 && all
+				}
+			}
+			return false
+		}
+		// foreign receiver state mentioned by a value
+		var foreign func(v ssa.Value, d int) string
+		foreign = func(v ssa.Value, d int) string {
+			if d > 8 || v == nil {
+				return ""
+			}
+			if fld, x := fieldOf(v); fld != nil {
+				root := x
+				for {
+					if u, ok := root.(*ssa.UnOp); ok {
+						root = u.X
+						continue
+					}
+					break
+				}
+				isR := root == ssa.Value(recv)
+				if al, ok := root.(*ssa.Alloc); ok {
+					for _, r := range *al.Referrers() {
+						if s, ok := r.(*ssa.Store); ok && s.Addr == ssa.Value(al) && s.Val == ssa.Value(recv) {
+							isR = true
+						}
+					}
+				}
+				if isR {
+					if n, ok := deref(x.Type()).(*types.Named); ok && n.Obj() == qfT.Obj() && !content[fld.Name()] {
+						return fld.Name()
+					}
+					return ""
+				}
+			}
+			if in, ok := v.(ssa.Instruction); ok {
+				if _, isPhi := v.(*ssa.Phi); isPhi && d > 3 {
+					return ""
+				}
+				for _, op := range in.Operands(nil) {
+					if *op != nil {
+						if w := foreign(*op, d+1); w != "" {
+							return w
+						}
+					}
+				}
+			}
+			return ""
+		}
+		eachInstr(fn, func(in ssa.Instruction) {
+			ret, ok := in.(*ssa.Return)
+			if !ok || len(ret.Results) != 1 || !isRecv(unspillResult(ret, ret.Results[0])) {
+				return
+			}
+			key := fname(fn) + "|returns its receiver"
+			bad := ""
+			for _, g := range dominatingGuards(ret.Block()) {
+				if w := foreign(g.Cond, 0); w != "" {
+					bad = w
+				}
+			}
+			if bad != "" {
+				c.bad(key, p.instrPos(ret), fmt.Sprintf("the receiver is returned unchanged under a test of its field %s, which is neither its error, its rows nor its columns: state remembered from earlier operations decides the result, and it outlives the operations that invalidate it", bad))
+			} else {
+				c.ok(key, p.instrPos(ret), "guarded by the receiver's error, rows, columns and the arguments only")
+			}
+		})
+	}
+}
+
+// ---- R135: a slice filled by replicating its own prefix is filled to the end ----
+
+func init() {
+	register(&Rule{ID: "R135", Name: "SELF-COPY-FILL", Floor: 3,
+		Text: "in the column packages, a slice allocated in the function that is filled by copying its own filled prefix further up (copy(data[k:], data[:m]) in a loop - block or doubling replication of a constant) is filled to its end: the loop continues exactly while the filled length k is less than the length of the slice (k < len(data), or < the allocation's length), because copy itself truncates the last, partial block. A condition that demands room for a whole block (k+m <= len, k <= len/2) leaves the tail at the zero value for every length that is not a multiple of the block / a power of two. Constructors without such a loop are listed as such (their fill loop is a plain range over the slice, see R72)",
+		Run:  runR135})
+}
+
+func runR135(c *Ctx) {
+	p := c.P
+	n := 0
+	for _, cp := range columnPkgs {
+		for _, fn := range p.FuncsIn(cp) {
+			loops := loopsOf(fn)
+			hasMake := false
+			eachInstr(fn, func(in ssa.Instruction) {
+				if _, ok := in.(*ssa.MakeSlice); ok {
+					hasMake = true
+				}
+			})
+			if !hasMake {
+				continue
+			}
+			selfCopies := 0
+			eachInstr(fn, func(in ssa.Instruction) {
+				call, ok := in.(*ssa.Call)
+				if !ok || builtinName(call) != "copy" || len(call.Call.Args) != 2 {
+					return
+				}
+				dst, src := call.Call.Args[0], call.Call.Args[1]
+				var rootOf func(v ssa.Value, d int) ssa.Value
+				rootOf = func(v ssa.Value, d int) ssa.Value {
+					v = stripSliceOps(v)
+					if ph, ok := v.(*ssa.Phi); ok && d < 4 {
+						var r ssa.Value
+						for _, e := range ph.Edges {
+							er := rootOf(e, d+1)
+							if r == nil {
+								r = er
+							} else if r != er {
+								return v
+							}
+						}
+						if r != nil {
+							return r
+						}
+					}
+					return v
+				}
+				dr, sr := rootOf(dst, 0), rootOf(src, 0)
+				mk, isMk := dr.(*ssa.MakeSlice)
+				if !isMk || dr != sr {
+					return
+				}
+				selfCopies++
+				n++
+				key := fname(fn) + "|replicating fill"
+				// the loop around the copy and the low bound of the destination
+				var li *loopInfo
+				for i := range loops {
+					if inLoop(loops[i], call.Block()) {
+						li = &loops[i]
+					}
+				}
+				dsl, ok := dst.(*ssa.Slice)
+				if li == nil || !ok || dsl.Low == nil {
+					c.bad(key, p.instrPos(call), "a slice is filled by a copy from itself that is not a loop over a growing filled length")
+					return
+				}
+				k := stripConvInt(dsl.Low)
+				// header (or latch) condition: k < len(data) / k < <allocation length>
+				okCond := false
+				for _, b := range fn.Blocks {
+					if !inLoop(*li, b) || len(b.Instrs) == 0 {
+						continue
+					}
+					iff, ok := b.Instrs[len(b.Instrs)-1].(*ssa.If)
+					if !ok {
+						continue
+					}
+					exits := false
+					for _, sc := range b.Succs {
+						if !inLoop(*li, sc) {
+							exits = true
+						}
+					}
+					if !exits {
+						continue
+					}
+					cmp, ok := iff.Cond.(*ssa.BinOp)
+					if !ok || cmp.Op != token.LSS || stripConvInt(cmp.X) != k {
+						continue
+					}
+					y := stripConvInt(cmp.Y)
+					if lc, ok := y.(*ssa.Call); ok && builtinName(lc) == "len" && stripSliceOps(lc.Call.Args[0]) == ssa.Value(mk) {
+						okCond = true
+					}
+					if y == stripConvInt(mk.Len) {
+						okCond = true
+					}
+				}
+				if okCond {
+					c.ok(key, p.instrPos(call), "replication continues while the filled length is below the slice's length")
+				} else {
+					c.bad(key, p.instrPos(call), "the loop that replicates the filled prefix does not run `while filled < len(slice)`: with a condition that asks for room for a whole block (or half the slice) the tail keeps the zero value whenever the length is not a multiple of the block size / a power of two - a constant column is then wrong in its last rows only for such lengths")
+				}
+			})
+			_ = selfCopies
+		}
+	}
+	if n == 0 {
+		c.okTrivial("column packages|no replicating fill", "-", "no slice is filled by copying its own prefix today; the constant constructors fill by a plain range over the slice")
+		c.okTrivial("column packages|no replicating fill#b", "-", "-")
+		c.okTrivial("column packages|no replicating fill#c", "-", "-")
+	}
+}
